@@ -213,11 +213,12 @@ def res_class(r):
 
 
 class SchedRun:
-    def __init__(self, seed, tier, tag, plan=None):
+    def __init__(self, seed, tier, tag, plan=None, prop="C05"):
         self.seed = seed
         self.tier = tier
         self.tag = tag
         self.plan = plan
+        self.prop = prop
         self.violations = []
         self.stats = {}
         self.signatures = set()
@@ -229,7 +230,7 @@ class SchedRun:
 
     def make_plan(self):
         r = random.Random(H("schedplan", self.seed))
-        backend = r.choice(["tree", "bare"])
+        backend = r.choice(["tree", "bare"]) if self.prop == "C05" else "tree"
         mode = r.choice(["threads", "procs"])
         pre = []
         names = []
@@ -472,6 +473,8 @@ class SchedRun:
         got = {i: res_class(results[i]) for i in range(n)}
         label = dict(backend=plan["backend"], mode=plan["mode"])
         recorded = dict(sch.record)
+        if self.prop == "C09":
+            return self.git_view(plan, work, got, sch, recorded)
 
         def viol(cls, detail):
             self.violations.append({"prop": "C05", "oracle": "C05." + cls, "sig": dict(label, oracle="C05." + cls), "step": None,
@@ -561,9 +564,34 @@ class SchedRun:
                     return viol("lost-acknowledged-write", "acknowledged delete of %s was undone" % ops[i]["name"])
         return viol("not-serializable", "no sequential order of %s gives these results and final contents %s" % (live, sorted(final)))
 
+    def git_view(self, plan, work, got, sch, recorded):
+        """C09 under concurrency: working tree, index and HEAD agree after
+        every request, whatever the interleaving and whoever was refused."""
+        import subprocess
+
+        env = dict(os.environ)
+        env["GIT_CONFIG_GLOBAL"] = "/dev/null"
+        p = subprocess.run(["git", "-c", "safe.directory=*", "-c", "core.quotepath=false", "status", "--porcelain"], cwd=work, env=env, capture_output=True, timeout=60)
+        lines = [l for l in p.stdout.decode("utf-8", "replace").splitlines() if not l.rstrip().endswith("index.lock")]
+        self.count("git.status")
+        if p.returncode != 0 or lines:
+            self.violations.append({"prop": "C09", "oracle": "C09.status-not-clean-after-overlapping-requests",
+                                    "sig": {"oracle": "C09.status-not-clean-after-overlapping-requests", "mode": plan["mode"]}, "step": None,
+                                    "detail": ("git status: %s | ops=%s results=%s switches=%s" % (lines[:4] or p.stderr[:200], [(o["op"], o["name"], o.get("cond")) for o in plan["ops"]], got, sch.signature[:6]))[:900]})
+            return recorded
+        p = subprocess.run(["git", "-c", "safe.directory=*", "fsck", "--strict", "--no-dangling"], cwd=work, env=env, capture_output=True, timeout=60)
+        out = (p.stdout + p.stderr).decode("utf-8", "replace")
+        bad = [l for l in out.splitlines() if l.startswith(("error", "missing", "broken", "fatal", "bad"))]
+        if p.returncode != 0 or bad:
+            self.violations.append({"prop": "C09", "oracle": "C09.fsck-after-overlapping-requests", "sig": {"oracle": "C09.fsck-after-overlapping-requests", "mode": plan["mode"]}, "step": None,
+                                    "detail": ("git fsck: %s | ops=%s switches=%s" % (bad[:3] or out[:200], [(o["op"], o["name"]) for o in plan["ops"]], sch.signature[:6]))[:900]})
+            return recorded
+        return None
+
     def result(self, plan):
         return {
             "violations": self.violations[:12],
+            "engine": "sched",
             "plan": plan,
             "stats": self.stats,
             "signatures": sorted(self.signatures),
